@@ -119,7 +119,12 @@ def examine(src, K, cap, rng, max_vecs=243):
     out["typed"], out["rec"] = f, d
     vs = list(d["variables"])
     out["vs"] = vs
-    paths, exh = SX.func_paths(f, K, cap, rng)
+    # a function without derivation has nothing to compare its executions with: only a few short paths are run (material for the
+    # executor correspondence); the symbolic values of such functions grow doubly exponentially with the iteration counts
+    if d["infinite"]:
+        paths, exh = SX.func_paths(f, 1, 4, rng)
+    else:
+        paths, exh = SX.func_paths(f, K, cap, rng)
     out["exhaustive"] = exh
     runs = []
     for p in paths:
@@ -135,11 +140,11 @@ def examine(src, K, cap, rng, max_vecs=243):
         runs.append((p, st, {v: SX.summary(st[v]) for v in vs}))
     out["runs"] = runs
     out["paths"] = len(runs)
-    grows = SX.growth(f, vs)
-    out["growth_pairs"] = len(grows)
     if d["infinite"]:
         out["status"] = "infinite"
         return out
+    grows = SX.growth(f, vs)
+    out["growth_pairs"] = len(grows)
     out["status"] = "ok"
     k = d["index"]
     rel = d.get("apply")
